@@ -15,6 +15,11 @@ every class is written values that are not values of its datatype (bv.refs.cmdre
 numbers and names, other datatypes, out-of-range numbers) at every priority of the set and in every state; the
 oracle is "refused, and nothing at all changed".  Writes of priority-array elements 1..16 (a value, Null) may be
 refused or taken as the command at that priority -- nothing else.
+Mode "direct+pa": the histories also contain "the priority array is replaced as a whole" -- by attribute assignment,
+through the mix-in's whole-array entry WriteProperty("priorityArray", array, direct=True) and by the same call without
+`direct` (refused or taken) -- with a copy of its current content, an all-NULL array, an array with one slot set.  The
+reference: the slots are those of the new array, later commands land in it; the present value is unspecified right
+after the replacement and follows the rule again from the next accepted command on.
 Mode "wire+cov": the device offers ChangeOfValueServices as well and the histories contain the life cycle of a COV
 subscription of the commanded object (subscribe / renew with a lifetime or indefinitely, cancel, the lifetime
 running out while time advances).  The reference knows nothing of subscriptions: they must not influence commanding.
@@ -52,7 +57,10 @@ RULE = ("cmd: BFS over all histories of {write value_i | relinquish} x priority 
         "'advance 1 s' for every (min-on, min-off) in {0,2,3}^2, plus the invalid-value writes; mode wire+cov adds "
         "SubscribeCOV(lifetime 2 s | indefinite, unconfirmed | confirmed as the tier says) and the cancellation to the "
         "alphabet (lifetimes run out under 'advance 1 s'); there the state also carries the harness' account of the "
-        "subscription (never / active with time to live / ended) and the device's number of live subscriptions")
+        "subscription (never / active with time to live / ended) and the device's number of live subscriptions; mode "
+        "direct+pa adds the 3 x 3 whole-array replacements (assignment | WriteProperty direct=True | WriteProperty) x (copy "
+        "of the content | all NULL | one slot set) to the cmd alphabet; there the state also carries the harness' account "
+        "of how the array object was last replaced (never / assign / write-direct / write)")
 ASSUMPTIONS = [
     "the *CmdObject classes are used through a register_object_type(vendor_id=999) subclass, as samples/CommandableMixin.py does",
     "objects are constructed with explicit presentValue = relinquishDefault (a consistent all-null initial state); "
@@ -63,6 +71,10 @@ ASSUMPTIONS = [
     "a write of an invalid value, or of priority-array element 1..16, counts as refused in the direct driver when ANY "
     "exception is raised (the statement does not say which), in the wire driver when answered with Error / Reject / Abort; "
     "priority-array elements 1..16 are written as the value itself (direct) / as a BACnetPriorityValue (wire)",
+    "direct+pa: right after a whole-array replacement the statement says nothing about the present value (the replacement "
+    "is neither a write nor a relinquish), so it is not checked until the next accepted command; slots, relinquish default "
+    "and everything else are; a replacement without direct=True may be refused (read-only property) or taken; not combined "
+    "with minimum on/off times or the wire driver",
     "wire+cov: one subscriber process of one client, perfect network, the client acknowledges confirmed notifications; "
     "what the notifications say is not checked here (only that subscriptions have no influence on commanding)",
     "commands at priority 6 are not issued in the minimum on/off part (slot 6 belongs to the mechanism there)",
@@ -83,19 +95,24 @@ BOUNDS = {
              "(analog value, binary output, character string value); pairs: direct, all 20 classes; "
              "min: binary output + binary value direct, depth<=9, 9 (on,off) configurations each; wire+cov (priorities {1,8}, "
              "subscribe 2 s unconfirmed, cancel) for binary output with (on,off) in {(2,3),(0,2)} and binary value with "
-             "{(2,3),(3,0)}, depth<=12",
+             "{(2,3),(3,0)}, depth<=12; cmd direct+pa (priorities {1,8}, whole-array replacements) for all 20 classes",
     "thorough": "cmd: priorities {1,6,8,16,none} wire for all 20 classes; priorities {1,2,6,8,16,none} direct for all 20 "
                 "classes and wire for analog value + binary output, depth<=7 (closure); pairs: direct + wire, all 20 classes; "
                 "min: binary output + binary value, direct and wire, depth<=14 (closure), 9 configurations each; "
                 "wire+cov (priorities {1,8}; subscribe 2 s / indefinite unconfirmed, 2 s confirmed, cancel) for both, 9 configurations "
                 "each, depth<=16; cmd wire+cov (priorities {1,8,none}, same subscription alphabet) for binary value, "
-                "multi-state value, date value",
+                "multi-state value, date value; cmd direct+pa (priorities {1,8,none}) for all 20 classes",
 }
 
 PRIOS_STD = (1, 6, 8, 16, None)
 PRIOS_EXT = (1, 2, 6, 8, 16, None)
 PRIOS_MIN = (1, 8, None)
 PRIOS_COV = (1, 8)              # quick tier, wire+cov: one priority above and one below the hold slot 6
+# the priority array is replaced as a whole: by attribute assignment, through the mix-in's whole-array entry
+# WriteProperty("priorityArray", array, direct=True), and the same call without `direct` (a service-level write of
+# a read-only property: refused or taken, both allowed); with a copy of its content, all NULL, one slot set
+PA_WAYS = ("assign", "write-direct", "write")
+PA_CONTENTS = ("copy", "clear", "one")
 COV_QUICK = (("cov", "sub", 2, False), ("cov", "cancel"))
 COV_FULL = (("cov", "sub", 2, False), ("cov", "sub", 0, False), ("cov", "sub", 2, True), ("cov", "cancel"))
 QUICK_WIRE = ("AnalogValueCmdObject", "BinaryOutputCmdObject", "CharacterStringValueCmdObject")
@@ -103,6 +120,7 @@ CLASS_INFO = dict((n, (c, d)) for (n, c, d) in cmdref.CLASSES)
 
 # a configuration is a plain tuple: (part, class name, mode, priority set, min_on, min_off)
 # mode: "direct" | "wire" | "wire+cov" (quick subscription alphabet) | "wire+cov*" (full subscription alphabet)
+#       | "direct+pa" (direct, with whole-array replacements in the alphabet)
 
 
 def cfg_label(cfg):
@@ -133,11 +151,15 @@ def alphabet(cfg):
         for p in prios:
             if p is not None:
                 ops.append(("a", p, "val"))
-                if mode != "direct":            # direct: the same statements as a relinquish at p, not repeated
+                if not mode.startswith("direct"):    # direct: the same statements as a relinquish at p, not repeated
                     ops.append(("a", p, "null"))
     for p in prios:
         for j in range(len(cmdref.INVALID[domain])):
             ops.append(("x", p, j))
+    if mode == "direct+pa":
+        for way in PA_WAYS:
+            for content in PA_CONTENTS:
+                ops.append(("pa", way, content))
     if mode == "wire+cov":
         ops += list(COV_QUICK)
     elif mode == "wire+cov*":
@@ -166,6 +188,8 @@ def op_kind(op):
         return "invalid-value-write"
     if op[0] == "cov":
         return "cov-subscribe" if op[1] == "sub" else "cov-cancel"
+    if op[0] == "pa":
+        return "array-replacement"
     return "advance"
 
 
@@ -178,6 +202,8 @@ def op_form(op, domain=None):
         return cmdref.INVALID[domain][op[2]][0] if domain else "invalid-value"
     if op[0] == "cov":
         return "cov"
+    if op[0] == "pa":
+        return "%s-%s" % (op[1], op[2])
     return "advance"
 
 
@@ -194,7 +220,12 @@ class Run(object):
         part, name, mode, prios, mon, moff = cfg
         self.cfg = cfg
         self.cov = mode.startswith("wire+cov")
-        self.mode = "wire" if self.cov else mode            # the driver: "direct" | "wire"
+        self.pa = mode == "direct+pa"
+        self.mode = "wire" if self.cov else "direct" if self.pa else mode      # the driver: "direct" | "wire"
+        self.replaced = "never"         # harness' own account: how the array object was last replaced as a whole
+        self.new_array = None
+        self.pa_equiv = []
+        self.one_slot = max([p for p in prios if p is not None] or [16])
         self.choice, self.domain = CLASS_INFO[name]
         dom = cmdref.DOMAINS[self.domain]
         self.values = dom["values"]
@@ -229,6 +260,15 @@ class Run(object):
                 self.ref.write_array_element(op[1], None)      # index 0 / 17: refused whatever the value
             elif op[0] == "x":
                 self.ref.command_invalid(self.invalid[op[2]][0], priority=op[1])
+            elif op[0] == "pa":
+                self.new_array = self.ref.array_content(op[2], self.one_slot, self.values[0])
+                # the ordinary commands that would bring the array to that content (the only value put is values[0])
+                self.pa_equiv = [("r", k) if self.new_array[k - 1] is NULL else ("w", k, 0)
+                                 for k in range(1, 17) if self.ref.slots[k] != self.new_array[k - 1]]
+                if op[1] == "write":
+                    return "either"                             # read-only for a service-level write, or taken
+                self.ref.replace_array(self.new_array)
+                self.replaced = op[1]
             elif op[0] == "cov":
                 if op[1] == "sub":                              # the reference of commanding is not told
                     self.book.subscribe(op[2], op[3])
@@ -243,7 +283,13 @@ class Run(object):
             return "refused"
 
     def settle_either(self, op, accepted):
-        """priorityArray[k] := value / Null, k in 1..16: the reference follows the answer of the device"""
+        """priorityArray[k] := value / Null, k in 1..16, and priorityArray := array without `direct`: the reference
+        follows the answer of the device"""
+        if op[0] == "pa":
+            if accepted:
+                self.ref.replace_array(self.new_array)
+                self.replaced = op[1]
+            return "accepted" if accepted else "refused"
         value = self.values[0] if op[2] == "val" else NULL
         self.ref.optional_array_element(op[1], value, accepted)
         return "accepted" if accepted else "refused"
@@ -261,6 +307,14 @@ class Run(object):
                     self.obj.WriteProperty("presentValue", (), priority=op[1])
                 elif op[0] == "x":
                     self.obj.WriteProperty("presentValue", cs.invalid_py(self.invalid[op[2]][1]), priority=op[1])
+                elif op[0] == "pa":
+                    arr = cs.make_array(self.domain, self.choice, self.new_array)
+                    if op[1] == "assign":
+                        self.obj.priorityArray = arr
+                    elif op[1] == "write-direct":
+                        self.obj.WriteProperty("priorityArray", arr, direct=True)
+                    else:
+                        self.obj.WriteProperty("priorityArray", arr)
                 else:
                     val = {"len": 5, "val": cs.to_py(self.domain, self.values[0]), "null": ()}[op[2]]
                     self.obj.WriteProperty("priorityArray", val, arrayIndex=op[1])
@@ -350,6 +404,8 @@ class Run(object):
             pend = round(task.taskTime - vclock.clock.now, 6)
         if self.cov:
             return (view, pend, cs.other_properties(self.obj), self.book.status(), self.pair.live_subscriptions())
+        if self.pa:
+            return (view, pend, cs.other_properties(self.obj), ("array-replaced", self.replaced))
         return (view, pend, cs.other_properties(self.obj))
 
 
@@ -375,7 +431,7 @@ def compare(view, ref, op, part):
                 return ("slots:commanded-slot-does-not-hold-last-%s" % kind, detail)
             return ("slots:other-slot-changed-by-%s" % kind, detail)
         return ("slots:differ-after-%s" % kind, detail)
-    if pv != rpv:
+    if rpv is not cmdref.UNSPECIFIED and pv != rpv:
         src = "relinquish-default"
         for i in range(16):
             if rslots[i] is not NULL:
@@ -401,10 +457,21 @@ def execute(cfg, hist, check_from=0, labels=None):
                    {"mismatch": bad[1], "note": "the same history without the subscribe / cancel events passes",
                     "without": plain})
             res = (bad,) + tuple(res[1:])
+    if bad is not None and step is not None and step >= 0 and any(op[0] == "pa" for op in hist[:step + 1]):
+        # the same history with every replacement that took place spelled as the ordinary commands that bring the
+        # array to the same content (none for a copy): does that pass?  Then replacing the array object is the cause.
+        equiv = []
+        _execute(cfg, hist[:step + 1], step + 2, equiv=equiv)          # unobserved re-run, collects the spelling
+        plain = tuple(o for ops in equiv for o in ops)
+        if plain and plain != tuple(hist[:step + 1]) and _execute(cfg, plain, 0)[0] is None:
+            bad = ("array-replaced:commands-after-whole-array-replacement-go-astray:%s" % bad[0],
+                   {"mismatch": bad[1], "note": "the same history passes when every replacement is spelled as ordinary "
+                                                "commands that bring the array to the same content", "instead": plain})
+            res = (bad,) + tuple(res[1:])
     return res
 
 
-def _execute(cfg, hist, check_from=0, labels=None):
+def _execute(cfg, hist, check_from=0, labels=None, equiv=None):
     """Replay `hist` on fresh real objects and on the reference.  `labels` (a list) receives the outcome label of
     every checked step.  From step `check_from` on, the direct view is
     checked after every step (the BFS passes len(hist)-1: the prefix is the history by which the parent state was
@@ -426,6 +493,11 @@ def _execute(cfg, hist, check_from=0, labels=None):
         got = run.apply_real(op)
         if want == "either":
             want = run.settle_either(op, got[0] == "accepted")
+        if equiv is not None:               # (failing cases only) the step as ordinary commands
+            if op[0] == "pa":
+                equiv.append(tuple(run.pa_equiv) if (want == "accepted" and got[0] == "accepted") else ())
+            else:
+                equiv.append((op,))
         if step < check_from - 1:
             continue                    # unobserved prefix
         before, before_view = canon, view
@@ -439,6 +511,8 @@ def _execute(cfg, hist, check_from=0, labels=None):
             label = "%s:%s:%s:%s" % (op_kind(op), want, ":".join(str(x) for x in how), op_form(op, run.domain))
         elif in_range(op):
             label = "%s:in-1-to-16" % label
+        elif op[0] == "pa":
+            label = "%s:%s" % (label, op_form(op))
         elif op[0] == "cov" or (op[0] == "adv" and run.cov):
             label = "%s:subscription-%s:live-%d" % (label, canon[3][0] if isinstance(canon[3], tuple) else canon[3], canon[4])
         if labels is not None:
@@ -521,7 +595,8 @@ def what_changed(before, after):
         out.append("present value: %r -> %r" % (bpv, apv))
     if brd != ard:
         out.append("relinquish default: %r -> %r" % (brd, ard))
-    for i, n in ((1, "pending min on/off timer"), (2, "other properties"), (3, "subscription book"), (4, "live subscriptions")):
+    for i, n in ((1, "pending min on/off timer"), (2, "other properties"), (3, "harness account (subscription / array replaced)"),
+                 (4, "live subscriptions")):
         if i < len(before) and before[i] != after[i]:
             out.append("%s: %r -> %r" % (n, before[i], after[i]))
     return out
@@ -783,6 +858,7 @@ def run(tier, seed, deadline):
     if tier == "quick":
         cmd_cfgs = [("cmd", n, "direct", PRIOS_STD, None, None) for n in names]
         cmd_cfgs += [("cmd", n, "wire", PRIOS_STD, None, None) for n in QUICK_WIRE]
+        cmd_cfgs += [("cmd", n, "direct+pa", PRIOS_COV, None, None) for n in names]
         min_cfgs = [("min", n, "direct", PRIOS_MIN, a, b) for n in binaries for (a, b) in times]
         cov_cfgs = [("min", n, "wire+cov", PRIOS_COV, a, b) for (n, a, b) in (("BinaryOutputCmdObject", 2, 3), ("BinaryOutputCmdObject", 0, 2),
                                      ("BinaryValueCmdObject", 2, 3), ("BinaryValueCmdObject", 3, 0))]
@@ -804,6 +880,7 @@ def run(tier, seed, deadline):
         bfs(acc, std, 8, t0 + 0.60 * span, "cmd")
         ext = [("cmd", n, "direct", PRIOS_EXT, None, None) for n in names]
         ext += [("cmd", n, "wire", PRIOS_EXT, None, None) for n in ("AnalogValueCmdObject", "BinaryOutputCmdObject")]
+        ext += [("cmd", n, "direct+pa", PRIOS_MIN, None, None) for n in names]
         bfs(acc, ext, 7, deadline, "cmd-ext")
 
     # written-out samples (seed only rotates which class is shown)
